@@ -269,6 +269,67 @@ pub fn run(ctx: &mut Ctx) {
             m[b / 8] ^= 1 << (b % 8);
         }
     }
+    // every total 65 500..=65 552 with the FINGERPRINT as the last attribute (its offset crosses
+    // 65 536 at 65 544 / 65 548 / 65 552 bytes), builder-made and reference-made: value = reference
+    // CRC, accepted, and header / FINGERPRINT / sampled single-bit flips rejected
+    {
+        let seal_sets: [&[SealSpec]; 4] = [&[SealSpec::Fp], &[SealSpec::Sha1, SealSpec::Fp], &[SealSpec::Sha256, SealSpec::Fp], &[SealSpec::Sha1, SealSpec::Sha256, SealSpec::Fp]];
+        let mut gi = 0u64;
+        for total in (65_500..=65_552usize).step_by(4) {
+            for (si, seals) in seal_sets.iter().enumerate() {
+                gi += 1;
+                if !ctx.mine(gi) {
+                    continue;
+                }
+                let mut r2 = ctx.rng("exact-64k", gi);
+                let p = super::c03::big_program_exact(&mut r2, total, seals);
+                ctx.eval();
+                let base = match build_program(&p) {
+                    Some(b) => b,
+                    None => {
+                        ctx.violation("C03", "in-limit-accepted", "MessageBuilder", "near-64k", || p.to_json(), "builds".into(), "refused".into());
+                        continue;
+                    }
+                };
+                let want = p.reference_bytes();
+                let n = base.len();
+                if n != total || n != want.len() || base[n - 8..] != want[n - 8..] {
+                    ctx.violation(
+                        "C09",
+                        "builder-fingerprint-is-rfc-crc",
+                        "MessageBuilder::add_fingerprint",
+                        &format!("total={total}"),
+                        || p.to_json(),
+                        format!("{} bytes …{}", want.len(), hex(&want[want.len().saturating_sub(8)..])),
+                        format!("{} bytes …{}", n, hex(&base[n.saturating_sub(8)..])),
+                    );
+                    continue;
+                }
+                ctx.count("exact-64k-boundary-fingerprints");
+                // the reference-made twin (same size), and the fault sample on both
+                let rseals: Vec<Seal> = seals.iter().map(|s| match s { SealSpec::Sha1 => Seal::Sha1, SealSpec::Sha256 => Seal::Sha256(32), SealSpec::Fp => Seal::Fingerprint }).collect();
+                let twin = gen_boundary_message(&mut r2, total, &rseals, &RefCreds::Short("big".into()));
+                for b in [&want, &twin] {
+                    if b.len() != total || !check_base(ctx, b) {
+                        continue;
+                    }
+                    ctx.count("large-base-messages");
+                    let mut m = b.to_vec();
+                    let mut bits: Vec<usize> = (0..160).collect();
+                    bits.extend((total - 8) * 8..total * 8);
+                    for _ in 0..(if si == 0 { 64 } else { 24 }) {
+                        bits.push(r2.usize(total * 8));
+                    }
+                    for bit in bits {
+                        m[bit / 8] ^= 1 << (bit % 8);
+                        check_mutant(ctx, &m);
+                        m[bit / 8] ^= 1 << (bit % 8);
+                    }
+                }
+            }
+        }
+    }
+    ctx.require("exact-64k-boundary-fingerprints", 40);
     ctx.require("builder-fingerprints", 5_000);
     ctx.require("base-messages", 200);
     ctx.require("single-bit-flips", 50_000);
